@@ -174,6 +174,12 @@ def run(pid, tier, seed):
             grp["segpair"] = 4
             groups.append((dict(c8, maxLen=200), gen_core.gen_seg_limit(seed, 8 if q else 150, 200), "seglimit", None))
             grp["seglimit"] = 6
+        if pid == "C08":
+            # a pipeline of a few thousand bytes in segments that end inside requests, cut near the sizes at which the
+            # inbound ring buffer is created and grows, with one long request spanning three or four segments
+            c8 = {"masters": 3, "mode": "step"}
+            groups.append((c8, gen_core.gen_seg_wrap(seed, 25 if q else 400, common.slot_tags(c8)), "segwrap", None))
+            grp["segwrap"] = 6
         if pid in ("C08", "C06"):
             # successive cut requests of growing length on one connection (the first piece of a request as long as the whole
             # previous one): nothing of an earlier request's assembly shows up in a later one
